@@ -4,7 +4,8 @@ from __future__ import annotations
 import ast
 
 from .. import astq, codec, reference
-from ..absint import (AbsInt, ADict, AList, AObj, Opaque, SeqVar, log_event)
+from ..absint import (AbsInt, AbsRaise, ADict, AList, AObj, Opaque, SeqVar, log_event)
+from ..bits import AV
 from ..fold import ClassRef, FuncRef
 from ..intset import IntSet
 from ..model import AnalysisError, FuncInfo, unparse
@@ -42,9 +43,11 @@ def _logging_interp(ctx):
     def mk(q):
         def summ(interp, args, kwargs, node):
             v = args[0] if args else None
-            if isinstance(v, AList) and v.kind == 'iterator':
-                # the real check loops over its argument: a one-shot iterable is used up by it
+            if isinstance(v, AList) and v.kind in ('iterator', 'fickle'):
+                # the real check loops over its argument: a one-shot iterable is used up by it, a changing one shows its first pass
                 v = AList(interp.iterate(v, node, keep_vars=True), 'list')
+            if 'data' in byq.get(q, ()) and (v is None or isinstance(v, (int, float, bool)) or isinstance(v, AV)):
+                raise AbsRaise('TypeError', node, implicit=True, msg='check_data loops over its argument')
             log_event('check', q, v)
             return None
         return summ
@@ -95,14 +98,17 @@ def _stored_items_checked(log, table, obj, attr):
             seen.extend(x for x in e[2].items if isinstance(x, SeqVar))
     missing = [x for x in items if not any(x is y for y in seen)]
     if missing:
-        return False, f'items {missing!r} taken from a one-shot iterable are stored under {attr!r} although the check never saw them (it ran on the exhausted iterator)'
+        return False, f'items {missing!r} are stored under {attr!r} although the check never saw them (the check and the store each iterate the argument: a one-shot iterable is exhausted by then, a changing one gives something else)'
     return True, ''
 
 
 def _markers(row, one_shot=False):
     out = {}
     for n in row['value_names']:
-        out[n] = AList([SeqVar(f'M_{n}', 1 << 20)], 'iterator' if one_shot else 'list') if n == 'data' else Opaque(f'M_{n}')
+        out[n] = AList([SeqVar(f'M_{n}', 1 << 20)], one_shot if isinstance(one_shot, str) else 'iterator' if one_shot else 'list') if n == 'data' \
+            else Opaque(f'M_{n}')
+        if n == 'data' and one_shot == 'fickle':
+            out[n].later = [SeqVar('M_data_second_pass', 1 << 20)]
     out['time'] = Opaque('M_time')
     return out
 
@@ -234,7 +240,7 @@ def r03_3_setattr(ctx):
     w = ctx.where(fn)
     S = codec.specs(ctx)
     n = 0
-    for row, one_shot in [(r, False) for r in S] + [(r, True) for r in S if 'data' in r['value_names']]:
+    for row, one_shot in [(r, False) for r in S] + [(r, k) for r in S if 'data' in r['value_names'] for k in (True, 'fickle')]:
         t = row['type']
         for attr in (list(row['value_names']) + ['time']) if not one_shot else ['data']:
             mk = _markers(row, one_shot)
@@ -247,7 +253,7 @@ def r03_3_setattr(ctx):
                 return ai.call_function(fn, [obj, attr, mk[attr]], {})
             outs = ai.explore(thunk)
             n += 1
-            inst = f'setattr({t}.{attr}{" = one-shot iterable" if one_shot else ""})'
+            inst = f'setattr({t}.{attr}{" = one-shot iterable" if one_shot is True else " = iterable whose second pass differs" if one_shot else ""})'
             cons = f'{fn.qname}::{"data" if attr == "data" else "time" if attr == "time" else "value"}'
             if [o.kind for o in outs] != ['return']:
                 ctx.fail('R03.3', inst, w, f'assignment of a (checked) value does not complete on one path: {outs}',
@@ -299,7 +305,7 @@ def r03_3_init(ctx):
     w = ctx.where(fn)
     S = codec.specs(ctx)
     n = 0
-    for row, one_shot in [(r, False) for r in S] + [(r, True) for r in S if 'data' in r['value_names']]:
+    for row, one_shot in [(r, False) for r in S] + [(r, k) for r in S if 'data' in r['value_names'] for k in (True, 'fickle')]:
         t = row['type']
         mk = _markers(row, one_shot)
         holder = {}
@@ -313,7 +319,7 @@ def r03_3_init(ctx):
             return ai.call_function(fn, [obj, t], dict(mk))
         outs = ai.explore(thunk)
         n += 1
-        inst = f'Message({t}, **all{", data = one-shot iterable" if one_shot else ""})'
+        inst = f'Message({t}, **all{", data = one-shot iterable" if one_shot is True else ", data = iterable whose second pass differs" if one_shot else ""})'
         if [o.kind for o in outs] != ['return']:
             ctx.fail('R03.1', inst, w, f'constructor outcomes: {outs}', construct=f'{fn.qname}::outcomes')
             continue
@@ -370,7 +376,7 @@ def r03_3_copy(ctx):
     w = ctx.where(fn)
     S = codec.specs(ctx)
     n = 0
-    for row, one_shot in [(r, False) for r in S] + [(r, True) for r in S if 'data' in r['value_names']]:
+    for row, one_shot in [(r, False) for r in S] + [(r, k) for r in S if 'data' in r['value_names'] for k in (True, 'fickle')]:
         t = row['type']
         for attr in (list(row['value_names']) + ['time']) if not one_shot else ['data']:
             mk = _markers(row, one_shot)
@@ -383,7 +389,7 @@ def r03_3_copy(ctx):
                 return ai.call_function(fn, [obj], {attr: mk[attr]})
             outs = ai.explore(thunk)
             n += 1
-            inst = f'copy({t}, {attr}={"<one-shot iterable>" if one_shot else ""})'
+            inst = f'copy({t}, {attr}={"<one-shot iterable>" if one_shot is True else "<iterable whose second pass differs>" if one_shot else ""})'
             obj = holder['obj']
             for o_ in outs:
                 wrote = [e for e in o_.log if e[0] == 'store' and e[1] is obj]
@@ -606,5 +612,47 @@ def r03_1_scan(ctx):
                     f'{fname} receives vars(message) and mutates it', construct=f'{f.qname}::mutates-param')
 
 
-RULES = [('R03.2', r03_2), ('R03.2b', r03_2b), ('R03.3-setattr', r03_3_setattr), ('R03.1-init', r03_3_init),
+def r03_illtyped_data(ctx):
+    """Sysex data that is not a sequence of integers at all (an int, a float, None) is rejected with TypeError or ValueError by the
+    constructor, copy() and attribute assignment alike, and leaves the message as it was - bytearray(5), for one, is five zero
+    bytes, not a type error."""
+    ai, table = _logging_interp(ctx)
+    cls = ctx.p.cls(MSG, 'Message')
+    row = next(r for r in codec.specs(ctx) if 'data' in r['value_names'])
+    t = row['type']
+    o, init = ctx.p.lookup_method(cls, '__init__')
+    o, copy = ctx.p.lookup_method(cls, 'copy')
+    o, seta = ctx.p.lookup_method(cls, '__setattr__')
+    n = 0
+    for bad, label in ((5, 'the int 5'), (2.5, 'a float'), (None, 'None'), (True, 'True')):
+        for how, fn in (('constructor', init), ('copy', copy), ('assignment', seta)):
+            if fn is None:
+                continue
+            holder = {}
+
+            def thunk():
+                if how == 'constructor':
+                    obj = AObj(cls, {})
+                    holder['obj'] = obj
+                    return ai.call_function(fn, [obj, t], {'data': bad})
+                obj = AObj(cls, _attrs_for(row))
+                holder['obj'] = obj
+                holder['before'] = dict(obj.attrs)
+                if how == 'copy':
+                    return ai.call_function(fn, [obj], {'data': bad})
+                return ai.call_function(fn, [obj, 'data', bad], {})
+            outs = ai.explore(thunk)
+            n += 1
+            ok = bool(outs) and all(o_.kind == 'raise' and o_.exc in ('TypeError', 'ValueError') for o_ in outs)
+            if ok and how != 'constructor':
+                ok = holder['obj'].attrs == holder['before']
+            ctx.require(ok, 'R03.3', f'{how}(sysex, data={label})', ctx.where(fn),
+                        f'data = {label} through the {how}: {outs}; expected TypeError or ValueError and an unchanged message',
+                        construct=f'{fn.qname}::ill-typed-data')
+    ctx.floor('R03.3-illtyped', n, 9)
+    for q in ai.inlined:
+        ctx.functions.add(q)
+
+
+RULES = [('R03.3-illtyped', r03_illtyped_data), ('R03.2', r03_2), ('R03.2b', r03_2b), ('R03.3-setattr', r03_3_setattr), ('R03.1-init', r03_3_init),
          ('R03.3-copy', r03_3_copy), ('R03.4', r03_4), ('R03.5', r03_5), ('R03.1-scan', r03_1_scan)]
